@@ -8,6 +8,7 @@ mod raw;
 mod rng;
 mod size;
 mod smoke;
+mod tower;
 mod wire;
 
 use out::{Run, Tier};
@@ -37,6 +38,9 @@ fn main() -> anyhow::Result<()> {
         "C07" => wire::run_c07(&mut run, replay.as_deref(), &corpus)?,
         "C04" => peers::run_c04(&mut run, replay.as_deref())?,
         "C05" => peers::run_c05(&mut run, replay.as_deref())?,
+        "C18" => tower::run_c18(&mut run, replay.as_deref())?,
+        "C19" => tower::run_c19(&mut run)?,
+        "C20" => tower::run_c20(&mut run)?,
         "C15" => match replay.as_deref() {
             Some(r) => size::replay(&mut run, r)?,
             None => size::run_c15(&mut run)?,
